@@ -51,6 +51,7 @@ CHECKS = {
             "real": ["the whole library compiled with -fsanitize=thread instrumentation and DISABLE_OBJECT_POOL, in libmmd_t.so", "real pthreads, real glibc malloc (per-thread arenas)"],
             "stub": ["thread scheduling (seeded cooperative scheduler: exactly one thread runs, baton passed at yield points)", "the TSan runtime (replaced by the simulator's own callbacks and happens-before detector)",
                      "rand()/srand()/time()/clock() (simulated, yield points)", "localtime() (passes through; its static buffer is recorded as shared state)"],
+            "extra_args": ["--shrink-budget", "120", "--child-timeout", "60"],
             "expect_probes": ["preemptions", "yield_points", "preempt_in_html_export", "preempt_in_zip"],
             "state_measure": "distinct schedule hashes: FNV over the sequence (thread chosen, code site) at every hand-over",
             "sim_time": "not meaningful: the clock is constant during a run; schedules are counted in yield points"},
